@@ -4,14 +4,15 @@ import LentilVerif.Lemmas.ZernikeAlg
 import LentilVerif.Lemmas.ZernikeRow
 import LentilVerif.Lemmas.ZernikeAngular
 import LentilVerif.Lemmas.ZernikeOrtho
+import LentilVerif.Lemmas.ZernikeDisk
 /-! # C11 — Zernike modes are the Noll-ordered orthonormal polynomials
 
 Property theorems only. Model: `Model/Zernike.lean` (hand-written, tied to `lentil/zernike.py` by the correspondence harness
 tools/harness/c11.py for every j ≤ 861, every valid (n, m) with n ≤ 40, mode values on dyadic nodes and random masks).
 
-Not proved (named in the harness `UNPROVEN`): `|Z_j| ≤ 1` without normalisation; orthonormality (`zernike_orthonormal`) stops at
-n = 20 (the exact radial table) and is stated for the polar-coordinate iterated integral — that this is the area mean over the disk
-(polar change of variables) is not formalised. -/
+Not proved (named in the harness `UNPROVEN`): `|Z_j| ≤ 1` without normalisation. Orthonormality is proved for n ≤ 20 here
+(`zernike_orthonormal`, and as an area mean over the disk `zernike_orthonormal_area`) and for n ≤ 40 in the thorough-tier module
+`Props/C11Thorough.lean`. -/
 namespace Lentil.C11
 open Lentil Finset
 
@@ -87,9 +88,22 @@ by the negative `r = j − (n+1)(n+2)/2 − 1`, sign from the parity of j) retur
 the row n, which the code finds by a float `sqrt`/`ceil`; the real function is compared for every j ≤ 861 by the correspondence) -/
 theorem code_index_matches (j : Nat) (h1 : 1 ≤ j) : codeIndex j = (nollM j, nollN j) := codeIndex_eq j h1
 
-/-- the row search of `zernike_index`, `n = ⌈(−1 + √(1 + 8j))/2⌉ − 1`, evaluated in exact real arithmetic, is the Noll row -/
+/-- **tie to the source of `zernike_index` and `zernike_coordinates`**: the pieces `codeIndex` and `zShift` are built from are re-translated
+on every run — `k = (n+1)(n+2)/2`, `r = j − k − 1`, the sign rule, the row seeds `[1, 1]` / `[0]`, ⌊n/2⌋ passes appending `last + 2` twice,
+the centre index `shape // 2` and the default shift `centroid − centre` -/
+theorem index_and_origin_tie (j n a : Nat) (c : ℚ) (N : Int) :
+    (Gen.rowStep a = [a + 2, a + 2] ∧ Gen.rowSeed n = (if n % 2 = 1 then [1, 1] else [0]) ∧ Gen.rowLoops n = n / 2 ∧
+      Gen.idxR j n = (j : Int) - ((n + 1) * (n + 2) / 2 : Nat) - 1 ∧ Gen.idxSign j = (if j % 2 = 1 then -1 else 1)) ∧
+    Gen.zCenter N = N / 2 ∧ Gen.zShiftAxis c N = c - ((N / 2 : Int) : ℚ) :=
+  ⟨gen_index_forms j n a, rfl, rfl⟩
+
+/-- the row search of `zernike_index`, `n = int(np.ceil(<Gen.rowSearchArg>) − 1)` with the REGENERATED argument `(−1 + √(1 + 8j))/2`, evaluated
+in exact real arithmetic, is the Noll row -/
 theorem row_search_real (j : ℕ) (hj : 1 ≤ j) :
-    ⌈(-1 + Real.sqrt (1 + 8 * (j : ℝ))) / 2⌉ - 1 = (nollN j : ℤ) := by
+    ⌈Gen.rowSearchArg Real.sqrt (j : ℝ)⌉ - 1 = (nollN j : ℤ) := by
+  have hform : Gen.rowSearchArg Real.sqrt (j : ℝ) = (-1 + Real.sqrt (1 + 8 * (j : ℝ))) / 2 := by
+    unfold Gen.rowSearchArg; push_cast; ring_nf
+  rw [hform]
   obtain ⟨hp, e⟩ := nollRow_spec j hj
   unfold nollN
   generalize (nollRow j).1 = n at *
@@ -117,6 +131,90 @@ theorem row_search_real (j : ℕ) (hj : 1 ≤ j) :
   rw [hc]; ring
 
 /-! ## radial polynomials -/
+
+/-- **tie to the source of `R`** (all `Gen.*` below are re-translated from `lentil/zernike.py` on every run): the parity guard, the
+number of terms and the exponents are the ones the model's `radialEval` uses, and the coefficient the code forms as a floating-point
+quotient is an exact integer — `Gen.radialDen` divides `Gen.radialNum` — for every valid (n, m) with n ≤ 40, so `radialCoeff` (their Int
+quotient) is its true value. A change to the formula in the source changes these definitions and breaks this theorem, the tables
+(`radial_at_one`, `radial_gram`) and everything built on them. -/
+theorem radial_formula_tie (n m k : Nat) :
+    (Gen.radialOdd n m = true ↔ (n - m) % 2 = 1) ∧ Gen.radialCount n m = (n - m) / 2 + 1 ∧ Gen.radialExp n m k = n - 2 * k ∧
+    radialCoeff n m k = Gen.radialNum n m k / (Gen.radialDen n m k : Int) ∧
+    (n ≤ 40 → m ≤ n → (n - m) % 2 = 0 → k ≤ (n - m) / 2 →
+      (Gen.radialDen n m k : Int) ∣ Gen.radialNum n m k ∧ Gen.radialDen n m k ≠ 0) := by
+  refine ⟨by simp [Gen.radialOdd], rfl, rfl, rfl, ?_⟩
+  intro hn hm hp hk
+  have T := allCoeffExact_40
+  unfold allCoeffExact at T
+  rw [List.all_eq_true] at T
+  have T1 := T n (List.mem_range.2 (by omega))
+  rw [List.all_eq_true] at T1
+  have T2 := T1 m (List.mem_range.2 (by omega))
+  simp only [Bool.or_eq_true, bne_iff_ne] at T2
+  rcases T2 with h | h
+  · exact absurd hp h
+  · rw [List.all_eq_true] at h
+    have T3 := h k (List.mem_range.2 (by omega))
+    simp only [Bool.and_eq_true, beq_iff_eq, bne_iff_ne] at T3
+    exact ⟨Int.dvd_of_emod_eq_zero T3.1, T3.2⟩
+
+/-- **tie to the source of `zernike`**: the model's mode is the re-translated decision tree and leaf products (`Gen.zernCore`) applied to
+the Noll orders and the radial polynomial; in particular the piston mode is the mask itself, and the normalised m = 0, m > 0, m < 0
+leaves are `√(n+1)·R·mask`, `√2·√(n+1)·R·cos(mθ)·mask`, `√2·√(n+1)·R·sin(mθ)·mask` -/
+theorem mode_formula_tie {K : Type} [Field K] (sqrtN : Nat → K) (cos sin : K → K) (j : Nat) (normalize : Bool) (rho theta : K) (mask : Bool) :
+    zernAt sqrtN cos sin j normalize rho theta mask
+      = Gen.zernCore sqrtN cos sin (nollN j) (nollM j) normalize (radialEval (nollN j) (nollM j).natAbs rho) theta mask ∧
+    (∀ (n : Nat) (Rv : K), Gen.zernCore sqrtN cos sin n 0 true Rv theta true = if n = 0 then 1 else sqrtN (n + 1) * Rv) ∧
+    (∀ (n : Nat) (m : Int) (Rv : K), 0 < m → Gen.zernCore sqrtN cos sin n m true Rv theta true = sqrtN 2 * sqrtN (n + 1) * Rv * cos ((m : K) * theta)) ∧
+    (∀ (n : Nat) (m : Int) (Rv : K), m < 0 → Gen.zernCore sqrtN cos sin n m true Rv theta true = sqrtN 2 * sqrtN (n + 1) * Rv * sin ((m : K) * theta)) ∧
+    (∀ (n : Nat) (m : Int) (Rv : K), m ≠ 0 → Gen.zernCore sqrtN cos sin n m false Rv theta true
+        = Rv * (if 0 < m then cos ((m : K) * theta) else sin ((m : K) * theta))) := by
+  refine ⟨rfl, ?_, ?_, ?_, ?_⟩
+  · intro n Rv; unfold Gen.zernCore; simp
+  · intro n m Rv hm; unfold Gen.zernCore; simp [hm, hm.ne']
+  · intro n m Rv hm; unfold Gen.zernCore; simp [hm.ne, not_lt.2 hm.le]
+  · intro n m Rv hm; unfold Gen.zernCore; simp [hm]
+
+
+
+/-- **the radial polynomial is the textbook one**: `R_n^m(ρ) = Σ_k c_k ρ^{n−2k}` (k = 0 … (n−m)/2) with the coefficient the code forms,
+`c_k = (−1)^k (n−k)! / (k! ((n+m)/2−k)! ((n−m)/2−k)!)` (`radial_formula_tie`), equal to the binomial form
+`(−1)^k C(n−k, k) C(n−2k, (n−m)/2−k)` of the literature for every valid (n, m) with n ≤ 40; sanity: `R_n^n(ρ) = ρ^n` and `R_2^0(ρ) = 2ρ² − 1` -/
+theorem radial_is_textbook (n m : Nat) (hn : n ≤ 40) (hm : m ≤ n) (h : (n - m) % 2 = 0) (x : ℝ) :
+    radialEval n m x = ∑ k ∈ Finset.range ((n - m) / 2 + 1),
+      (((-1 : Int) ^ k * ((chooseN (n - k) k * chooseN (n - 2 * k) ((n - m) / 2 - k) : Nat) : Int) : Int) : ℝ) * x ^ (n - 2 * k) ∧
+    radialEval n n x = x ^ n ∧ radialEval 2 0 x = 2 * x ^ 2 - 1 := by
+  have T := allBinomial_40
+  unfold allBinomial at T
+  rw [List.all_eq_true] at T
+  refine ⟨?_, ?_, ?_⟩
+  · rw [radialEval_real n m h]
+    apply Finset.sum_congr rfl
+    intro k hk
+    have T1 := T n (List.mem_range.2 (by omega))
+    rw [List.all_eq_true] at T1
+    have T2 := T1 m (List.mem_range.2 (by omega))
+    simp only [Bool.or_eq_true, bne_iff_ne] at T2
+    rcases T2 with h2 | h2
+    · exact absurd h h2
+    · rw [List.all_eq_true] at h2
+      have T3 := h2 k (List.mem_range.2 (Finset.mem_range.1 hk))
+      rw [beq_iff_eq.1 T3]
+  · have T1 := T n (List.mem_range.2 (by omega))
+    rw [List.all_eq_true] at T1
+    have T2 := T1 n (List.mem_range.2 (by omega))
+    simp only [Bool.or_eq_true, bne_iff_ne] at T2
+    rcases T2 with h2 | h2
+    · exact absurd (by omega) h2
+    · rw [List.all_eq_true] at h2
+      have T3 := h2 0 (List.mem_range.2 (by omega))
+      rw [radialEval_real n n (by omega)]
+      simp only [Nat.sub_self, Nat.zero_div, zero_add, Finset.sum_range_one, beq_iff_eq.1 T3]
+      simp [chooseN]
+  · rw [radialEval_real 2 0 (by decide)]
+    have c0 : radialCoeff 2 0 0 = 2 := by decide
+    have c1 : radialCoeff 2 0 1 = -1 := by decide
+    simp [Finset.sum_range_succ, c0, c1]; ring
 
 /-- **R_n^m(1) = 1** for every valid (n, m) with n ≤ 40 (all 861 modes the float evaluation can represent), in any
 commutative ring -/
@@ -152,35 +250,6 @@ theorem radial_gram (n n' m : Nat) (hn : n ≤ 20) (hn' : n' ≤ 20) (hm : m ≤
   · exact absurd h' h1
   · exact h1
 
-/-- **Noll's normalisation constants** give unit mean square over the unit disk: with `∫₀¹ (R_n^m)² ρ dρ = 1/(2(n+1))`
-(`radial_gram`) and the angular integral `2π` (m = 0) or `π` (cos², sin²; m ≠ 0), the mean `N²·(1/(2(n+1)))·(2π or π)/π` is 1
-for `N² = n+1` (m = 0) and `N² = 2(n+1)` (m ≠ 0) -/
-theorem normalisation_constants (n : Nat) (m : Int) :
-    ((normSq n m : Nat) : ℚ) * (1 / (2 * ((n : ℚ) + 1))) * (if m = 0 then 2 else 1) = 1 := by
-  have hn : (2 * ((n : ℚ) + 1)) ≠ 0 := by positivity
-  unfold normSq
-  split_ifs <;> (push_cast; field_simp)
-
-/-- the same with the angular integrals evaluated (Mathlib interval integrals): for m = 0 the angular factor is `∫₀^{2π} 1 = 2π`,
-for m ≥ 1 it is `∫₀^{2π} cos²(mθ) = ∫₀^{2π} sin²(mθ) = π`; with the radial norm `1/(2(n+1))` the mean square over the unit disk
-`N² · (1/(2(n+1))) · (angular integral)/π` is exactly 1 -/
-theorem normalisation_unit_mean_square (n m : ℕ) :
-    (((normSq n 0 : ℕ) : ℝ) * (1 / (2 * ((n : ℝ) + 1))) * ((∫ _θ in (0 : ℝ)..(2 * Real.pi), (1 : ℝ)) / Real.pi) = 1) ∧
-    (1 ≤ m →
-      ((normSq n m : ℕ) : ℝ) * (1 / (2 * ((n : ℝ) + 1))) * ((∫ θ in (0 : ℝ)..(2 * Real.pi), Real.cos ((m : ℝ) * θ) ^ 2) / Real.pi) = 1 ∧
-      ((normSq n (-(m : ℤ)) : ℕ) : ℝ) * (1 / (2 * ((n : ℝ) + 1))) * ((∫ θ in (0 : ℝ)..(2 * Real.pi), Real.sin ((m : ℝ) * θ) ^ 2) / Real.pi) = 1) := by
-  have hn : (2 * ((n : ℝ) + 1)) ≠ 0 := by positivity
-  have hpi : Real.pi ≠ 0 := Real.pi_ne_zero
-  constructor
-  · simp only [normSq, if_true, intervalIntegral.integral_const, sub_zero, smul_eq_mul, mul_one]
-    push_cast; field_simp
-  · intro hm
-    have m0 : ((m : ℤ) ≠ 0) := by omega
-    have m1 : (-(m : ℤ) ≠ 0) := by omega
-    rw [angular_cos_sq m hm, angular_sin_sq m hm]
-    simp only [normSq, if_neg m0, if_neg m1]
-    constructor <;> (push_cast; field_simp)
-
 /-- **azimuthal orthogonality**: over a period, `cos(mθ)·cos(m'θ)` and `sin(mθ)·sin(m'θ)` integrate to 0 for m ≠ m', and
 `cos(mθ)·sin(m'θ)` integrates to 0 for all m, m' — so modes with different azimuthal order, or the cosine and sine mode of the
 same order, have vanishing cross products whatever their radial parts -/
@@ -199,6 +268,14 @@ theorem radial_gram_integral (n n' m : Nat) (hn : n ≤ 20) (hn' : n' ≤ 20) (h
   · push_cast; ring
   · simp
 
+/-- the radial Gram table up to order `N`, as a hypothesis (proved for N = 20 by `radial_gram`; for N = 40 in the thorough-tier module
+`Props/C11Thorough.lean`) -/
+def GramUpTo (N : Nat) : Prop :=
+  ∀ n n' m : Nat, n ≤ N → n' ≤ N → m ≤ n → m ≤ n' → (n - m) % 2 = 0 → (n' - m) % 2 = 0 →
+    gramQ n n' m = if n = n' then (1 : Rat) / (((2 * (n + 1) : Nat) : Int) : Rat) else 0
+
+theorem gramUpTo_20 : GramUpTo 20 := fun n n' m hn hn' hm hm' h h' => radial_gram n n' m hn hn' hm hm' h h'
+
 /-- **the model's mode is normalisation · radial · azimuthal, with the squared normalisation `normSq`**: over ℝ (real √, cos, sin),
 inside the mask, `zernAt j = N · R_n^{|m|}(ρ) · A_m(θ)` with `N² = normSq n m` (n+1 for m = 0, 2(n+1) otherwise) and
 `A_m = 1, cos(mθ), sin(mθ)` for m = 0, m > 0, m < 0 — this binds `normalisation_constants`/`normalisation_unit_mean_square` to `zernAt` -/
@@ -207,10 +284,8 @@ theorem mode_factorisation (j : Nat) (ρ θ : ℝ) :
     normFac (nollN j) (nollM j) ^ 2 = ((normSq (nollN j) (nollM j) : ℕ) : ℝ) :=
   ⟨zReal_factor j ρ θ, normFac_sq _ _⟩
 
-/-- **orthonormality of the model's modes over the unit disk** (all pairs among the first 231 modes, n ≤ 20): the polar-coordinate
-mean `(1/π) ∫₀^{2π} ∫₀¹ Z_j Z_j' ρ dρ dθ` of the product of two normalised modes of the model is 1 if j = j' and 0 otherwise.
-(What is not formalised: that this iterated polar integral is the area mean over the disk — the polar change of variables.) -/
-theorem zernike_orthonormal (j j' : Nat) (hj : 1 ≤ j) (hj' : 1 ≤ j') (hn : nollN j ≤ 20) (hn' : nollN j' ≤ 20) :
+/-- orthonormality for all modes of radial order ≤ N, given the radial Gram table up to N -/
+theorem zernike_orthonormal_of (N : Nat) (hG : GramUpTo N) (j j' : Nat) (hj : 1 ≤ j) (hj' : 1 ≤ j') (hn : nollN j ≤ N) (hn' : nollN j' ≤ N) :
     diskMean (fun ρ θ => zReal j ρ θ * zReal j' ρ θ) = if j = j' then 1 else 0 := by
   rw [diskMean_modes, azim_integral]
   obtain ⟨v1, v2, _, _, _, _⟩ := noll_valid j hj
@@ -219,7 +294,13 @@ theorem zernike_orthonormal (j j' : Nat) (hj : 1 ≤ j) (hj' : 1 ≤ j') (hn : n
   by_cases hm : nollM j = nollM j'
   · rw [if_pos hm]
     have hab : (nollM j).natAbs = (nollM j').natAbs := by rw [hm]
-    rw [← hab, radial_gram_integral (nollN j) (nollN j') (nollM j).natAbs hn hn' v1 (hab ▸ w1) v2 (hab ▸ w2)]
+    have hI : ∫ x in (0 : ℝ)..1, radialEval (nollN j) (nollM j).natAbs x * radialEval (nollN j') (nollM j).natAbs x * x
+        = if nollN j = nollN j' then 1 / (2 * ((nollN j : ℝ) + 1)) else 0 := by
+      rw [← gramQ_eq_integral _ _ _ v2 (hab ▸ w2), hG _ _ _ hn hn' v1 (hab ▸ w1) v2 (hab ▸ w2)]
+      split_ifs
+      · push_cast; ring
+      · simp
+    rw [← hab, hI]
     by_cases hnn : nollN j = nollN j'
     · have hjj : j = j' := by
         have a := noll_bijective.1 j hj
@@ -237,6 +318,26 @@ theorem zernike_orthonormal (j j' : Nat) (hj : 1 ≤ j) (hj' : 1 ≤ j') (hn : n
   · have hjne : j ≠ j' := fun e => hm (by rw [e])
     simp [hm, hjne]
 
+/-- **orthonormality of the model's modes over the unit disk** (all pairs among the first 231 modes, n ≤ 20): the polar-coordinate
+mean `(1/π) ∫₀^{2π} ∫₀¹ Z_j Z_j' ρ dρ dθ` of the product of two normalised modes of the model is 1 if j = j' and 0 otherwise.
+(`zernike_orthonormal_area` below turns the iterated polar integral into the area mean over the disk.) -/
+theorem zernike_orthonormal (j j' : Nat) (hj : 1 ≤ j) (hj' : 1 ≤ j') (hn : nollN j ≤ 20) (hn' : nollN j' ≤ 20) :
+    diskMean (fun ρ θ => zReal j ρ θ * zReal j' ρ θ) = if j = j' then 1 else 0 :=
+  zernike_orthonormal_of 20 gramUpTo_20 j j' hj hj' hn hn'
+
+/-- **orthonormality as an area mean over the unit disk**: with each mode read as a function of the point `q` of the plane through its
+polar coordinates `(|q|, arg q)`, `(1/π) ∫_{|q|<1} Z_j(q) Z_j'(q) dq` is 1 if j = j' and 0 otherwise (n ≤ N given the Gram table up to N;
+polar change of variables `integral_comp_polarCoord_symm`, Fubini, 2π-periodicity) -/
+theorem zernike_orthonormal_area_of (N : Nat) (hG : GramUpTo N) (j j' : Nat) (hj : 1 ≤ j) (hj' : 1 ≤ j') (hn : nollN j ≤ N) (hn' : nollN j' ≤ N) :
+    (1 / Real.pi) * ∫ q in unitDisk, zReal j (polarCoord q).1 (polarCoord q).2 * zReal j' (polarCoord q).1 (polarCoord q).2
+      = if j = j' then 1 else 0 := by
+  rw [area_mean_modes, zernike_orthonormal_of N hG j j' hj hj' hn hn']
+
+/-- … for all pairs among the first 231 modes (n ≤ 20) -/
+theorem zernike_orthonormal_area (j j' : Nat) (hj : 1 ≤ j) (hj' : 1 ≤ j') (hn : nollN j ≤ 20) (hn' : nollN j' ≤ 20) :
+    (1 / Real.pi) * ∫ q in unitDisk, zReal j (polarCoord q).1 (polarCoord q).2 * zReal j' (polarCoord q).1 (polarCoord q).2
+      = if j = j' then 1 else 0 := zernike_orthonormal_area_of 20 gramUpTo_20 j j' hj hj' hn hn'
+
 /-! ## coordinates: centroid origin, unit radius at the farthest sample, support only -/
 
 /-- **the default polar origin is the centroid of the mask**, whatever the parity of the array size or the position of the mask:
@@ -250,9 +351,9 @@ theorem coords_origin_is_centroid {K : Type} [Field K] (mask : Arr Bool) (hc : (
       (if mask.get i j then zCC mask (zShift (K := K) mask) j else 0)) = 0 := by
   obtain ⟨m0, m1, m2⟩ := maskMoments_cast (K := K) mask
   have hr : ∀ i : Int, zRR mask (zShift (K := K) mask) i = (i : K) - ((maskMoments mask).2.1 : K) / ((maskMoments mask).1 : K) := by
-    intro i; unfold zRR zShift meshCoord; simp only; ring
+    intro i; unfold zRR zShift meshCoord Gen.meshCoord Gen.zShiftAxis Gen.zCenter; simp only; ring
   have hcc : ∀ j : Int, zCC mask (zShift (K := K) mask) j = (j : K) - ((maskMoments mask).2.2 : K) / ((maskMoments mask).1 : K) := by
-    intro j; unfold zCC zShift meshCoord; simp only; ring
+    intro j; unfold zCC zShift meshCoord Gen.meshCoord Gen.zShiftAxis Gen.zCenter; simp only; ring
   refine ⟨hr, hcc, ?_, ?_⟩
   · have e : ∀ i ∈ range mask.s0.toNat, ∀ j ∈ range mask.s1.toNat,
         (if mask.get i j then zRR mask (zShift (K := K) mask) i else 0)
@@ -319,10 +420,10 @@ finite radial/azimuthal factors — see the known finding KF-C11-nan-outside-mas
 theorem zero_outside_mask {K : Type} [Field K] (sqrtN : Nat → K) (cos sin : K → K) (j : Nat) (normalize : Bool) (rho theta : K) :
     zernAt sqrtN cos sin j normalize rho theta false = 0 ∧ zernAt sqrtN cos sin 1 normalize rho theta true = 1 := by
   constructor
-  · unfold zernAt zernCore; simp only [Bool.false_eq_true, if_false, mul_zero]; split_ifs <;> rfl
+  · unfold zernAt Gen.zernCore; simp only [Bool.false_eq_true, if_false, mul_zero]; split_ifs <;> rfl
   · have h1 : nollN 1 = 0 := by decide
     have h2 : nollM 1 = 0 := by decide
-    simp [zernAt, zernCore, h1, h2]
+    simp [zernAt, Gen.zernCore, h1, h2]
 
 /-- **the mask enters only through its support**: two weight arrays of the same shape that are non-zero at the same samples give
 the same Boolean mask, hence the same moments, origin, coordinates and mode values (all of which are functions of that mask) -/
@@ -339,5 +440,32 @@ the test `mask ≠ 0` -/
 theorem support_scale_invariant {W : Type} [Field W] [DecidableEq W] (x : Arr W) (k : W) (hk : k ≠ 0) :
     supportMask ({ s0 := x.s0, s1 := x.s1, get := fun i j => x.get i j * k } : Arr W) = supportMask x :=
   depends_on_support_only _ x ⟨rfl, rfl⟩ (fun i j => by simp [hk])
+
+
+/-- the piston mode is the constant 1 and every other mode has mean zero over the unit disk (n ≤ 20): the clause "unit mean square except
+piston's constant 1" — `zernike_orthonormal` with j' = 1 -/
+theorem piston_and_mean (j : Nat) (hj : 1 ≤ j) (hn : nollN j ≤ 20) (ρ θ : ℝ) :
+    zReal 1 ρ θ = 1 ∧ diskMean (fun ρ θ => zReal j ρ θ) = if j = 1 then 1 else 0 := by
+  have h1 : ∀ ρ θ : ℝ, zReal 1 ρ θ = 1 := fun ρ θ => (zero_outside_mask (fun k => Real.sqrt k) Real.cos Real.sin 1 true ρ θ).2
+  refine ⟨h1 ρ θ, ?_⟩
+  have := zernike_orthonormal j 1 hj (le_refl 1) hn (by decide)
+  simpa only [h1, mul_one] using this
+
+/-- without normalisation a mode is bounded by its radial part: `|Z_j(ρ, θ)| ≤ |R_n^{|m|}(ρ)|` — what remains unproven of "bounded by 1" is
+exactly `|R_n^m| ≤ 1` on [0, 1] -/
+theorem raw_mode_le_radial (j : Nat) (ρ θ : ℝ) :
+    |zernAt (fun k => Real.sqrt k) Real.cos Real.sin j false ρ θ true| ≤ |radialEval (nollN j) (nollM j).natAbs ρ| := by
+  unfold zernAt Gen.zernCore
+  by_cases h0 : nollM j = 0
+  · by_cases hn : nollN j = 0
+    · simp [h0, hn, radialEval_zero_zero]
+    · simp [h0, hn]
+  · by_cases hp : 0 < nollM j
+    · simp only [h0, hp, if_false, if_true, Bool.false_eq_true, mul_one]
+      rw [abs_mul]
+      exact mul_le_of_le_one_right (abs_nonneg _) (Real.abs_cos_le_one _)
+    · simp only [h0, hp, if_false, if_true, Bool.false_eq_true, mul_one]
+      rw [abs_mul]
+      exact mul_le_of_le_one_right (abs_nonneg _) (Real.abs_sin_le_one _)
 
 end Lentil.C11
